@@ -196,7 +196,8 @@ fn piece(r: &mut StdRng, shape: &Shape, cap: usize) -> Vec<u8> {
     }
 }
 /// drive one chunking of `stream` through the documented loop, logging every feed call
-fn drive(out: &mut Out, cap: usize, shape: &Shape, stream: &[u8], cuts: &[usize], by_ref: bool, sid: u64) {
+fn drive(out: &mut Out, cap: usize, shape: &Shape, stream: &[u8], cuts: &[usize], by_ref: bool, sid: u64) -> Vec<J> {
+    let mut delivered = vec![];
     let mut acc = make(cap).expect("capacity instantiated");
     out.ev(json!({"op":"acc_reset","n":cap,"target":shape.to_json(),"stream":jb(stream),"sid":sid}));
     let mut pos = 0;
@@ -209,13 +210,16 @@ fn drive(out: &mut Out, cap: usize, shape: &Shape, stream: &[u8], cuts: &[usize]
             iters += 1;
             if iters > 2 * chunk.len() + 4 {
                 out.ev(json!({"op":"feed_loop","n":cap,"chunk_len":chunk.len(),"iters":iters,"gave_up":1}));
-                return;
+                return delivered;
             }
             let mut ev = acc.feed(shape, window, by_ref);
             ev["ghost"] = json!(1);
             ev["regime"] = json!(0);
             let kind = ev["kind"].as_str().unwrap().to_string();
             let rem_len = ev["rem_len"].as_u64().unwrap() as usize;
+            if kind == "Success" {
+                delivered.push(ev["value"].clone());
+            }
             out.ev(ev);
             if kind == "Consumed" || kind == "panic" {
                 break;
@@ -224,6 +228,31 @@ fn drive(out: &mut Out, cap: usize, shape: &Shape, stream: &[u8], cuts: &[usize]
         }
         out.ev(json!({"op":"feed_loop","n":cap,"chunk_len":chunk.len(),"iters":iters,"gave_up":0}));
     }
+    delivered
+}
+/// replay the behaviours printed by MC_Link: {n, target, msgs, chunks, clean, faults}. The chunks (frames as the
+/// specification encodes them, damaged by the model's channel) go through the documented loop on the real accumulator;
+/// every call is logged as usual and the run ends with what was delivered, for the end-to-end judgement.
+pub fn run_link(a: &Args) {
+    let inp = std::fs::read_to_string(a.get("in").expect("--in")).expect("read");
+    let mut out = Out::new(&a.str("out", "/dev/stdout"));
+    let mut sid = 7_000_000u64;
+    for line in inp.lines().filter(|l| !l.trim().is_empty()) {
+        let j: J = serde_json::from_str(line).expect("link json");
+        let n = j["n"].as_u64().unwrap() as usize;
+        let shape = Shape::from_json(&j["target"]);
+        let chunks: Vec<Vec<u8>> = j["chunks"].as_array().unwrap().iter().map(|c| c.as_array().unwrap().iter().map(|x| x.as_u64().unwrap() as u8).collect()).collect();
+        let stream: Vec<u8> = chunks.concat();
+        let cuts: Vec<usize> = chunks.iter().map(|c| c.len()).collect();
+        for by_ref in [false, true] {
+            sid += 1;
+            let delivered = drive(&mut out, n, &shape, &stream, &cuts, by_ref, sid);
+            out.ev(json!({"op":"link_done","n":n,"target":shape.to_json(),"msgs":j["msgs"],"clean":j["clean"],"faults":j["faults"],
+                          "stream":jb(&stream),"delivered":delivered,"mode": if by_ref {"feed_ref"} else {"feed"}}));
+        }
+    }
+    out.flush();
+    eprintln!("acc-link: {} events", out.n);
 }
 pub fn run_streams(a: &Args) {
     let seed = a.num("seed", 1);
